@@ -149,3 +149,36 @@ pub fn m_c15(len: usize, f: usize, index: usize, sub: usize, wave_len: usize) ->
     go!(f64, 1e-13);
     bad
 }
+
+/// Native impulse experiment (not a check by itself): where does an input event at frame n0
+/// come out, compared with n0*ratio + output_delay()? Used to confirm C14 counterexamples.
+pub fn m_c14(kind: &str, ratio: f64) -> bool {
+    use rubato::{FastFixedIn, SincFixedIn, SincInterpolationParameters};
+    let n0 = 300usize;
+    let total = 2048usize;
+    let (out, delay): (Vec<f64>, usize) = match kind {
+        "sinc" => {
+            let p = SincInterpolationParameters { sinc_len: 64, f_cutoff: 0.95, oversampling_factor: 128,
+                interpolation: SincInterpolationType::Cubic, window: WindowFunction::BlackmanHarris2 };
+            let mut r = SincFixedIn::<f64>::new(ratio, 1.0, p, total, 1).unwrap();
+            let mut x = vec![0.0f64; total];
+            x[n0] = 1.0;
+            let d = r.output_delay();
+            (r.process(&[x], None).unwrap().remove(0), d)
+        }
+        _ => {
+            let mut r = FastFixedIn::<f64>::new(ratio, 1.0, PolynomialDegree::Cubic, total, 1).unwrap();
+            let mut x = vec![0.0f64; total];
+            x[n0] = 1.0;
+            let d = r.output_delay();
+            (r.process(&[x], None).unwrap().remove(0), d)
+        }
+    };
+    // centre of mass of |out|
+    let s: f64 = out.iter().map(|v| v.abs()).sum();
+    let c: f64 = out.iter().enumerate().map(|(i, v)| i as f64 * v.abs()).sum::<f64>() / s;
+    let expected = n0 as f64 * ratio + delay as f64;
+    let tol = ratio.max(1.0) + 1.0;
+    println!("{} ratio {}: event centred at output frame {:.3}, n*ratio + output_delay() = {:.3} (delay {}), tolerance {:.1}", kind, ratio, c, expected, delay, tol);
+    (c - expected).abs() > tol
+}
